@@ -68,7 +68,17 @@ func (c C16Case) Describe() string {
 var setters = []string{"SetPID", "SetRateLimit", "SetBacklogLimit", "SetEnabled", "SetImmutable", "SetFailure", "SetBacklogWaitTime"}
 
 func genC16(t *rapid.T) C16Case {
-	c := C16Case{Kind: rapid.SampledFrom([]string{"set", "set", "seq", "get", "wire", "wire", "many"}).Draw(t, "kind")}
+	c := C16Case{Kind: rapid.SampledFrom([]string{"set", "set", "seq", "get", "wire", "wire", "many", "getset"}).Draw(t, "kind")}
+	if c.Kind == "getset" {
+		// GetStatus with a reply of any length the decoder accepts, then a setter on the same client: what was
+		// learnt from the reply must not change what the setter sends
+		c.Buf = rapid.SliceOfN(rapid.Byte(), 32, 60).Draw(t, "status")
+		c.Setter = rapid.SampledFrom(setters).Draw(t, "setter")
+		c.U32 = rapid.Uint32().Draw(t, "u32")
+		c.Bool = rapid.Bool().Draw(t, "bool")
+		c.NoWait = rapid.Bool().Draw(t, "nowait")
+		return c
+	}
 	if c.Kind == "many" {
 		// a long run of setters without waiting on one client: every one of them is a full request
 		c.Setter = rapid.SampledFrom(setters).Draw(t, "setter")
@@ -203,10 +213,23 @@ func propC16(c C16Case) error {
 		}
 		hC16.Class("set-after-unacknowledged-set")
 		hC16.NonTrivial(hx.FP(c.Describe()), c.Describe)
-	case "set":
+	case "set", "getset":
 		k := simk.New(7)
-		k.OnSend = func(k *simk.K, s simk.Sent) { k.Push(simk.Ack(s.Seq, 0, s.Type)) }
+		k.OnSend = func(k *simk.K, s simk.Sent) {
+			k.Push(simk.Ack(s.Seq, 0, s.Type))
+			if uint32(s.Type) == uapi.A("AUDIT_GET") {
+				k.Push(simk.Msg(uint16(uapi.A("AUDIT_GET")), 0, s.Seq, 0, c.Buf))
+			}
+		}
 		cl := &libaudit.AuditClient{Netlink: k}
+		if c.Kind == "getset" {
+			// what GetStatus learnt from a reply of whatever length must not change what the setter sends
+			if _, err := cl.GetStatus(); err != nil {
+				return fmt.Errorf("GetStatus with a %d-byte reply: %v", len(c.Buf), err)
+			}
+			k.Sent, k.Recvs = nil, 0
+			hC16.Class("set-after-get-on-one-client")
+		}
 		wm := libaudit.WaitForReply
 		if c.NoWait {
 			wm = libaudit.NoWait
